@@ -256,6 +256,143 @@ Proof.
   apply read_reply_tcp. assumption.
 Qed.
 
+
+(* ---------- the stream after the reply ---------- *)
+
+Lemma read_reply_full_outcome s : fst (read_reply_full s) = read_reply s.
+Proof.
+  unfold read_reply_full, read_reply.
+  destruct s as [|ver [|code [|rsv [|atyp s4]]]]; try reflexivity.
+  cbn [read_u8].
+  destruct (negb (ver =? SOCKS_PROTOCOL_VERSION)); [reflexivity|].
+  destruct (8 <? code); [reflexivity|].
+  destruct (negb (rsv =? SOCKS_RESERVED)); [reflexivity|].
+  assert (E : (match s4 with
+               | [] => Reject
+               | l :: s5 => match take_bytes l s5 with
+                            | Some (name, r) => if utf8_valid name then Ok r else Panic
+                            | None => Reject end
+               end) =
+              (match read_u8 s4 with
+               | Some (l, s5) => match take_bytes l s5 with
+                                 | Some (name, r) => if utf8_valid name then Ok r else Panic
+                                 | None => Reject end
+               | None => Reject end)).
+  { destruct s4; reflexivity. }
+  rewrite E.
+  match goal with |- context [match ?x with Ok _ => _ | _ => _ end] => destruct x end; try reflexivity.
+  destruct (take_bytes 2 a) as [[p rest]|]; [|reflexivity].
+  destruct (code =? 0); reflexivity.
+Qed.
+
+Lemma take_bytes_some n s a r : take_bytes n s = Some (a, r) -> s = a ++ r /\ lenN a = n.
+Proof.
+  unfold take_bytes. destruct (lenN s <? n) eqn:E; [discriminate|].
+  intros H. injection H as <- <-. split; [symmetry; apply takeN_dropN|].
+  rewrite lenN_takeN. lia.
+Qed.
+
+Lemma read_reply_full_frames s rest :
+  read_reply_full s = (OTcp, rest) ->
+  exists reply, s = reply ++ rest /\ reply_len s = Some (lenN reply) /\ exists a, reply = 5 :: 0 :: 0 :: a.
+Proof.
+  unfold read_reply_full, reply_len.
+  destruct s as [|ver [|code [|rsv [|atyp s4]]]];
+    try (intros H; injection H as H _; revert H; unfold read_reply; cbn [read_u8];
+         repeat match goal with |- context [if ?c then _ else _] => destruct c end; discriminate).
+  sconsts.
+  destruct (negb (ver =? 5)) eqn:Ev; [discriminate|].
+  destruct (8 <? code); [discriminate|].
+  destruct (negb (rsv =? 0)) eqn:Er; [discriminate|].
+  apply negb_false_iff, N.eqb_eq in Ev, Er. subst ver rsv.
+  destruct (atyp =? 1) eqn:A1.
+  { destruct (take_bytes 4 s4) as [[ad r]|] eqn:T; [|discriminate].
+    destruct (take_bytes 2 r) as [[p rest']|] eqn:T2; [|discriminate].
+    destruct (code =? 0) eqn:Ec; [|discriminate]. apply N.eqb_eq in Ec. subst code.
+    intros H. injection H as <-.
+    apply take_bytes_some in T, T2. destruct T as [-> L1], T2 as [-> L2].
+    exists (5 :: 0 :: 0 :: atyp :: ad ++ p). split; [cbn; rewrite <- app_assoc; reflexivity|].
+    split; [|eexists; reflexivity].
+    f_equal. rewrite !lenN_cons, lenN_app. lia. }
+  destruct (atyp =? 4) eqn:A4.
+  { destruct (take_bytes 16 s4) as [[ad r]|] eqn:T; [|discriminate].
+    destruct (take_bytes 2 r) as [[p rest']|] eqn:T2; [|discriminate].
+    destruct (code =? 0) eqn:Ec; [|discriminate]. apply N.eqb_eq in Ec. subst code.
+    intros H. injection H as <-.
+    apply take_bytes_some in T, T2. destruct T as [-> L1], T2 as [-> L2].
+    exists (5 :: 0 :: 0 :: atyp :: ad ++ p). split; [cbn; rewrite <- app_assoc; reflexivity|].
+    split; [|eexists; reflexivity].
+    f_equal. rewrite !lenN_cons, lenN_app. lia. }
+  destruct (atyp =? 3) eqn:A3; [|discriminate].
+  destruct s4 as [|l s5]; [discriminate|].
+  destruct (take_bytes l s5) as [[name r]|] eqn:T; [|discriminate].
+  destruct (utf8_valid name); [|discriminate].
+  destruct (take_bytes 2 r) as [[p rest']|] eqn:T2; [|discriminate].
+  destruct (code =? 0) eqn:Ec; [|discriminate]. apply N.eqb_eq in Ec. subst code.
+  intros H. injection H as <-.
+  apply take_bytes_some in T, T2. destruct T as [-> L1], T2 as [-> L2].
+  exists (5 :: 0 :: 0 :: atyp :: l :: name ++ p). split; [cbn; rewrite <- app_assoc; reflexivity|].
+  split; [|eexists; reflexivity].
+  f_equal. rewrite !lenN_cons, lenN_app. lia.
+Qed.
+
+(* nothing of the stream is handed on unless the dialogue succeeded *)
+Lemma connect_rest_only_on_success a d port server :
+  snd (connect a d port server) <> OTcp -> connect_rest a d port server = [].
+Proof.
+  unfold connect_rest. destruct (connect a d port server) as [em o]. cbn [snd].
+  destruct o; try reflexivity. intros H. exfalso. apply H. reflexivity.
+Qed.
+
+
+Lemma after_auth_tcp_reply a d port s em em' :
+  after_auth a d port s em = (em', OTcp) -> read_reply s = OTcp.
+Proof.
+  unfold after_auth. destruct (request_message 1 d port); intros H; inversion H. reflexivity.
+Qed.
+
+(* after a successful CONNECT dialogue the server's stream is: method selection, the authentication
+   status when credentials were exchanged, one RFC 1928 reply reporting success, and then exactly the
+   bytes that become the tunnelled stream *)
+Lemma connect_rest_frames a d port server em :
+  connect a d port server = (em, OTcp) ->
+  exists pre reply,
+    server = pre ++ reply ++ connect_rest a d port server
+    /\ (pre = [5; 0] \/ pre = [5; method_of a; 1; 0])
+    /\ reply_len (reply ++ connect_rest a d port server) = Some (lenN reply)
+    /\ exists r, reply = 5 :: 0 :: 0 :: r.
+Proof.
+  intros H. unfold connect_rest. rewrite H. revert H.
+  unfold connect. sconsts.
+  destruct server as [|ver s1]; cbn [read_u8]; [intros H; inversion H|].
+  destruct (negb (ver =? 5)) eqn:Ev; [intros H; inversion H|].
+  apply negb_false_iff, N.eqb_eq in Ev. subst ver.
+  destruct s1 as [|m s2]; cbn [read_u8]; [intros H; inversion H|].
+  destruct (m =? 0) eqn:E0.
+  { apply N.eqb_eq in E0. subst m. intros H. apply after_auth_tcp_reply in H.
+    unfold read_reply_rest.
+    pose proof (read_reply_full_outcome s2) as O. rewrite H in O.
+    destruct (read_reply_full s2) as [o rest] eqn:F. cbn [fst snd] in *. subst o.
+    apply read_reply_full_frames in F. destruct F as (reply & -> & L & R).
+    exists [5; 0], reply. repeat split; try assumption. left; reflexivity. }
+  destruct ((m =? 2) || (m =? 128)) eqn:E1.
+  - destruct (m =? method_of a) eqn:Em; [|intros H; inversion H].
+    destruct (auth_message a) as [msg|]; [|intros H; inversion H].
+    destruct s2 as [|v s3]; cbn [read_u8]; [intros H; inversion H|].
+    destruct (negb (v =? 1)) eqn:E2; [intros H; inversion H|].
+    destruct s3 as [|st s4]; cbn [read_u8]; [intros H; inversion H|].
+    destruct (negb (st =? 0)) eqn:E3; [intros H; inversion H|].
+    apply negb_false_iff, N.eqb_eq in E2, E3. apply N.eqb_eq in Em. subst v st.
+    intros H. apply after_auth_tcp_reply in H.
+    change (dropN 2 (1 :: 0 :: s4)) with s4.
+    unfold read_reply_rest.
+    pose proof (read_reply_full_outcome s4) as O. rewrite H in O.
+    destruct (read_reply_full s4) as [o rest] eqn:F. cbn [fst snd] in *. subst o.
+    apply read_reply_full_frames in F. destruct F as (reply & -> & L & R).
+    exists [5; m; 1; 0], reply. repeat split; try assumption. right. rewrite Em. reflexivity.
+  - destruct (m =? 255); intros H; inversion H.
+Qed.
+
 (* ---------- UDP relay header ---------- *)
 
 Lemma take_n {A} n (a b : list A) : lenN a = n -> takeN n (a ++ b) = a.
